@@ -459,7 +459,7 @@ func c17routes(c *an.Ctx) {
 		r, ok := got[k]
 		name := ""
 		if ok && r.Handler != nil {
-			name = r.Handler.Name()
+			name = an.BaseName(r.Handler)
 		}
 		c.Check(ok && name == nsqadminRoutes[k], fn, "route "+k, fn.Pos(), "", sprintf("route %s is served by %q, expected %s", k, name, nsqadminRoutes[k]))
 		if ok && (strings.Contains(k, "/api/") || strings.Contains(k, "/config/")) {
